@@ -250,7 +250,7 @@ def is_zero_d_ndarray(x):
 
 def listify(x):
     "recursively convert all members of a sequence to a list"
-    if not isiterable(x): return x
+    if not isiterable(x): return x.flatten()[0] if is_zero_d_ndarray(x) else x
     if x is iter(x): return listify(list(x))
     try: # e.g. if array(1)
         if x.ndim == 0: return x.flatten()[0]
